@@ -469,6 +469,7 @@ type State struct {
 	mapN    map[string]string // (Array Int Int)
 	globals map[*ssa.Global]string
 	iters   map[*ssa.Range]string
+	visited map[*ssa.Range]string // range-over-map: set of keys visited so far, (Array K Bool)
 	ghost   map[string]string
 	wm      string
 	locks   map[string]bool
@@ -485,6 +486,7 @@ func (s *State) clone() *State {
 	n.mapN = cloneMap(s.mapN)
 	n.globals = cloneMap(s.globals)
 	n.iters = cloneMap(s.iters)
+	n.visited = cloneMap(s.visited)
 	n.ghost = cloneMap(s.ghost)
 	n.locks = cloneMap(s.locks)
 	return n
@@ -501,7 +503,7 @@ func cloneMap[K comparable, V any](m map[K]V) map[K]V {
 func newState() *State {
 	return &State{cond: "true", cells: map[*ssa.Alloc]string{}, heapP: map[string]string{}, heapA: map[string]string{},
 		mapD: map[string]string{}, mapV: map[string]string{}, mapN: map[string]string{}, globals: map[*ssa.Global]string{},
-		iters: map[*ssa.Range]string{}, ghost: map[string]string{}, locks: map[string]bool{}, wm: "wm0"}
+		iters: map[*ssa.Range]string{}, visited: map[*ssa.Range]string{}, ghost: map[string]string{}, locks: map[string]bool{}, wm: "wm0"}
 }
 
 func (e *Engine) heapPSort(sort string) string { return "(Array Int " + sort + ")" }
@@ -718,6 +720,19 @@ func (e *Engine) mergeStates(sts []*State) *State {
 		k := k
 		if v, ok := pick(func(s *State) (string, bool) { v, ok := s.iters[k]; return v, ok }, "Int", "it"); ok {
 			out.iters[k] = v
+		}
+	}
+	for k := range ik {
+		k := k
+		if isString(k.X.Type()) {
+			continue
+		}
+		mt, ok := k.X.Type().Underlying().(*types.Map)
+		if !ok {
+			continue
+		}
+		if v, ok := pick(func(s *State) (string, bool) { v, ok := s.visited[k]; return v, ok }, "(Array "+e.sortOf(mt.Key())+" Bool)", "vis"); ok {
+			out.visited[k] = v
 		}
 	}
 	if v, ok := pick(func(s *State) (string, bool) { return s.wm, true }, "Int", "wm"); ok {
